@@ -313,6 +313,9 @@ func visitInstr(fr *frame, instr ssa.Instruction) continuation {
 		if fr.i.ex != nil && fr.i.ex.StoreMon != nil {
 			fr.i.ex.StoreMon.onStore(fr, instr, addr)
 		}
+		if fr.i.ex != nil && fr.i.ex.Guard != nil {
+			fr.i.ex.Guard.onStore(fr, addr)
+		}
 		store(mustDeref(instr.Addr.Type()), addr, fr.get(instr.Val))
 
 	case *ssa.If:
@@ -459,6 +462,9 @@ func visitInstr(fr *frame, instr ssa.Instruction) continuation {
 		v := fr.get(instr.Value)
 		if fr.i.ex != nil && fr.i.ex.StoreMon != nil {
 			fr.i.ex.StoreMon.onMapUpdate(fr, instr, m)
+		}
+		if fr.i.ex != nil && fr.i.ex.Guard != nil {
+			fr.i.ex.Guard.onMapUpdate(fr, m)
 		}
 		switch m := m.(type) {
 		case *omap:
